@@ -41,9 +41,9 @@ chk('C02', MC,
     'The kernels decide the NanoVM engine against the reference operators; the native engine is tied to the NanoVM by the C01 translation-validation family (same operators, evaluation order, short circuit, shadowing for all arguments). The Coq relation (floor vs truncating division) is not decided.',
     'CBMC one-instruction kernels vs reference operator; SMT2 export + z3/cvc5 for * / %', 'DESIGN.md 4/C02, 10')
 chk('C05', MC,
-    'Driver gating only: the real compile_file (nanoc) and nano_virt main run with every phase outcome symbolic; a failed lexer/parser/import/type-check phase gives non-zero status and no code generation, no file opened for writing, no cc/system, no VM run, for every combination of outcomes and the four command-line modes.',
-    'Which programs the type checker rejects is NOT decided (rule kernels on typechecker.c not built); only that a rejection is never turned into an artifact.',
-    'CBMC on the real drivers with symbolic phase outcomes (environment stubs + ghost flags)', 'DESIGN.md 4/C05, 10')
+    'Driver gating plus three rule kernels: the real compile_file (nanoc) and nano_virt main run with every phase outcome symbolic; a failed lexer/parser/import/type-check phase gives non-zero status and no code generation, no file opened for writing, no cc/system, no VM run, for every combination of outcomes and the four command-line modes.',
+    'Which programs the type checker rejects is decided only for three rule kernels on the real typechecker.c check_statement (external call outside an unsafe context incl. after unsafe blocks that return or nest; return of the wrong type over int/bool/float/string/void; non-bool assert/if condition), on literal operands; all other rules of the catalogue are NOT decided. typechecker.c is compiled with -Dunion=struct.',
+    'CBMC on the real drivers with symbolic phase outcomes (environment stubs + ghost flags) + rule kernels on the real type checker', 'DESIGN.md 4/C05, 10.9')
 chk('C06', MC,
     'Two halves on real code: (a) driver gating - in the real compile_file, a false result of the shadow-test phase gives non-zero status before transpilation, with no file written and no compiler run, a true result reaches transpilation, for every combination of the other phase outcomes; (b) the shadow runner - the real eval.c run_shadow_tests / eval_statement executes 1-2 shadow blocks of 1-2 assert statements (optionally nested in if, optionally after a for/while loop that breaks or continues) whose outcomes are symbolic, and returns true iff every assertion held, for every outcome vector. Counterexamples are replayed on the real nanoc.',
     'Assert conditions are literals with symbolic truth values (condition evaluation is C03); user calls/let/set in shadow bodies, extern skipping, the missing-shadow diagnostic and the JSON report are outside. eval.c is compiled with -Dunion=struct (CBMC does not track pointers stored in unions).',
